@@ -4,6 +4,7 @@ import (
 	"fmt"
 	"go/token"
 	"go/types"
+	"strings"
 
 	"golang.org/x/tools/go/ssa"
 )
@@ -207,8 +208,16 @@ func (st *State) throw(v Value) {
 	}
 	for i := len(st.frames) - 1; i >= 0; i-- {
 		f := st.frames[i]
-		if len(f.defers) > 0 {
-			st.fail("panic through a frame with deferred calls is not supported")
+		if len(f.defers) > 0 && !f.panicking {
+			// run the deferred calls of this frame before unwinding further
+			for j := len(st.frames) - 1; j > i; j-- {
+				st.freeLocals(st.frames[j])
+			}
+			st.frames = st.frames[:i+1]
+			f.panicking = true
+			st.panicV = v
+			st.recovered = false
+			abort()
 		}
 		if f.catch {
 			// pop frames i.. ; deliver to frame i-1
@@ -225,6 +234,27 @@ func (st *State) throw(v Value) {
 	st.panicV = v
 	st.errMsg = panicString(v) + st.where()
 	abort()
+}
+
+// runDeferred pops the last deferred call of f and runs it; f does not advance.
+func (st *State) runDeferred(f *Frame) {
+	d := f.defers[len(f.defers)-1]
+	f.defers = f.defers[:len(f.defers)-1]
+	cl := d.fn.(*Closure)
+	if cl.Fn == nil {
+		return
+	}
+	if m := st.run.P.fnMeta(cl.Fn); m.intr != nil || len(cl.Fn.Blocks) == 0 {
+		// deferred intrinsics (mutex unlock ...) have no effect in the single-threaded engine
+		name := cl.Fn.String()
+		if !strings.HasPrefix(name, "(*sync.") {
+			st.fail("deferred call of external function " + name)
+			abort()
+		}
+		return
+	}
+	fr := st.pushFrame(cl.Fn, d.args, cl.Bind)
+	fr.noAdvance = true
 }
 
 func (st *State) freeLocals(f *Frame) {
@@ -314,7 +344,7 @@ func (st *State) pushFrame(fn *ssa.Function, args []Value, bind []Value) *Frame 
 
 func (st *State) doReturn(f *Frame, res Value) {
 	if len(f.defers) > 0 {
-		st.fail("return with pending defers unsupported")
+		st.fail("return with pending defers (missing RunDefers)")
 		abort()
 	}
 	st.freeLocals(f)
@@ -325,6 +355,9 @@ func (st *State) doReturn(f *Frame, res Value) {
 		return
 	}
 	caller := st.top()
+	if f.noAdvance {
+		return // a deferred call finished: the caller continues with RunDefers / unwinding
+	}
 	if f.catch {
 		st.deliver(caller, Tuple{B(false), Str("")})
 		return
@@ -364,6 +397,36 @@ func (st *State) jump(f *Frame, to *ssa.BasicBlock) {
 
 func (st *State) step() {
 	f := st.top()
+	if f.panicking {
+		if len(f.defers) > 0 {
+			st.runDeferred(f)
+			return
+		}
+		f.panicking = false
+		if st.recovered {
+			// recover() stopped the panic: the function returns zero results
+			st.recovered = false
+			var res Value
+			if r := f.fi.fn.Signature.Results(); r.Len() == 1 {
+				res = zeroValue(r.At(0).Type())
+			} else if r.Len() > 1 {
+				res = zeroValue(r)
+			}
+			st.doReturn(f, res)
+			return
+		}
+		// continue unwinding above this frame
+		st.freeLocals(f)
+		st.frames = st.frames[:len(st.frames)-1]
+		v := st.panicV
+		if len(st.frames) == 0 {
+			st.status = Panicked
+			st.errMsg = panicString(v)
+			return
+		}
+		st.throw(v)
+		return
+	}
 	ins := f.blk.Instrs[f.ip]
 	st.steps++
 	if st.steps > st.run.Opts.MaxSteps {
@@ -516,12 +579,41 @@ func (st *State) step() {
 	case *ssa.DebugRef:
 	case *ssa.RunDefers:
 		if len(f.defers) > 0 {
-			st.fail("defers unsupported")
-			abort()
+			st.runDeferred(f)
+			return
 		}
 	case *ssa.Defer:
-		st.fail("defer unsupported")
-		abort()
+		c := x.Common()
+		d := deferred{}
+		for _, a := range c.Args {
+			d.args = append(d.args, st.get(f, a))
+		}
+		if c.IsInvoke() {
+			recv, ok := st.get(f, c.Value).(Iface)
+			if !ok || recv.T == nil {
+				st.throwNilDeref()
+			}
+			fn := st.run.P.lookupMethod(recv.T, c.Method)
+			if fn == nil {
+				st.fail("deferred method not found")
+				abort()
+			}
+			d.fn = &Closure{Fn: fn}
+			d.args = append([]Value{recv.V}, d.args...)
+		} else {
+			switch v := c.Value.(type) {
+			case *ssa.Builtin:
+				st.fail("deferred builtin unsupported: " + v.Name())
+				abort()
+			default:
+				cl, _ := st.get(f, v).(*Closure)
+				if cl == nil {
+					st.throwNilDeref()
+				}
+				d.fn = cl
+			}
+		}
+		f.defers = append(f.defers, d)
 	default:
 		st.fail(fmt.Sprintf("unsupported instruction %T: %s", ins, ins))
 		abort()
@@ -1375,6 +1467,16 @@ func (st *State) builtin(f *Frame, name string, c *ssa.CallCommon, args []Value)
 		}
 		return Ptr{p.Blk, p.Off + o}
 	case "recover":
+		// stops a panic when called from a deferred function of a panicking frame
+		for i := len(st.frames) - 2; i >= 0; i-- {
+			if st.frames[i].panicking && !st.recovered {
+				st.recovered = true
+				if pv, ok := st.panicV.(Iface); ok {
+					return pv
+				}
+				return Iface{}
+			}
+		}
 		return Iface{}
 	}
 	st.fail("unsupported builtin " + name)
